@@ -9,7 +9,6 @@ import (
 	"strings"
 
 	"github.com/moorara/algo/generic"
-	"github.com/moorara/algo/symboltable"
 
 	"verifharness/c01"
 	"verifharness/hx"
@@ -124,7 +123,7 @@ func hook(m *c01.Machine, i int, f []string, out string, bad func(string, ...any
 		bad("Height() = %d but the longest root-to-leaf path of the tree has %d nodes (%d keys)", h, rh, n)
 		return
 	}
-	dump, derr := c01.ParseDump(m.Comp, symboltable.VerifDump[int, int](m.A))
+	dump, derr := c01.ParseDump(m.Comp, m.A.Dump())
 	if derr != nil {
 		bad("unparsable dump: %v", derr)
 		return
@@ -315,7 +314,7 @@ func Main(run *hx.Run) {
 			if k%4 == 3 {
 				lo = -u / 2
 			}
-			c := hx.Case{Header: fmt.Sprintf("comp=%s %s family=mixed dump=1", comp, c01.Params(r, c01.CmpNames)),
+			c := hx.Case{Header: fmt.Sprintf("comp=%s %s%s family=mixed dump=1", comp, c01.Params(r, c01.CmpNames), c01.TypeParams(r)),
 				Ops: withHeights(c01.GenOpsAt(r, l, lo, u))}
 			run.Do(comp, c, Exec)
 		}
@@ -323,6 +322,18 @@ func Main(run *hx.Run) {
 	// size thresholds: the sweep of package c01 (it asks `height` after the load and after every mutation)
 	for _, comp := range []string{"avl", "rb", "bst"} {
 		c01.SweepCases(run, run.R.Fork(comp+"/sweep"), comp, func(c hx.Case) { run.Do(comp, c, Exec) })
+	}
+	// every size from 0 to 200, and irregular shapes: random-order loads and churn on 300 … 5000 keys (package c01)
+	for _, comp := range []string{"avl", "rb", "bst"} {
+		r := run.R.Fork(comp + "/smallsizes")
+		for n := 0; n <= 200; n++ {
+			family := Families[(n+int(run.Seed))%len(Families)]
+			c := hx.Case{Header: fmt.Sprintf("comp=%s %s%s family=size-%s n=%d", comp, c01.Params(r, c01.CmpNames), c01.TypeParams(r), family, n),
+				Ops: c01.SmallSizeOps(r, family, n)}
+			run.Do(comp, c, Exec)
+		}
+		c01.RandLoadCases(run, run.R.Fork(comp+"/randload"), comp, c01.RandLoadOpts{N: 2500, HeightEvery: 40, RB: 3, Other: 1},
+			func(c hx.Case) { run.Do(comp, c, Exec) })
 	}
 	if run.Thorough() {
 		// large tables: 10^3 - 10^4 keys in the adversarial insertion orders, long churn
